@@ -74,7 +74,10 @@ Definition same_graph (g h : ggraph) : bool :=
   && Bool.eqb (directed (sp g)) (directed (sp h))
   && rows_eqb (sorted_rows (map gedge_row (get_all_edges g))) (sorted_rows (map gedge_row (get_all_edges h))).
 
-(* the constructor's result against the spec layer (Spec/AGraph.v) *)
+(* the constructor's result against the spec layer (Spec/AGraph.v).  Since round 2 this agreement is
+   a THEOREM for every input (C19_constructor_refines_spec, C19_reader_refines_spec), as is the
+   well-formedness evaluated by observation 31 (C14_reachable_is_wellformed); both flags are kept as
+   per-case ties between model and code *)
 Definition spec_agrees (ns : list gnode) (es : list gedge) (s : specs) (r : outcome ggraph) : bool :=
   match spec_new_from bytes_eqb bytes_ltb ns es s, r with
   | Ok a, Ok g =>
